@@ -1,6 +1,7 @@
 import RulioModel.ConcC12
 import RulioProofs.ConcC12
 import RulioProofs.ConcAgree
+import RulioProofs.RuleCache
 
 /-! # C12 — concurrent requests to one location are atomic (property theorems only)
 
@@ -135,6 +136,43 @@ theorem single_writer_memory_store_agree_partial (impl : String) (himpl : impl =
   obtain ⟨q, hq, rfl⟩ := hp
   have hr := hrows q.1 (hreq q hq)
   rw [pendM_inst q.2 fragDrop (by decide) _ v, pendS_inst q.2 fragDrop _ v, hr.1, hr.2]
+
+/-! ## The rule cache (the former finding C12-stale-rule-cache, repaired in /repo: the cache counts its invalidations) -/
+
+/-- **No stale rule in the cache** — the generation protocol of `FindCachedRules` / `Add` / `rem` (model
+`RulioModel/RuleCache.lean`: one rule id; any number of writers, each "invalidate, update the state, invalidate", and of
+readers, each "read the generation, read the rule from the state, use the cached rule if there is one, else cache what was
+read provided the generation is still the one read"; one step per scheduling decision). After EVERY schedule: whatever the
+cache holds is the version the state holds, unless some writer is between its update and its second invalidation — in
+particular whenever every writer that started has returned. So an event that starts after `AddRule` returned runs the rule
+that is stored, however the earlier events interleaved with the write. -/
+theorem rule_cache_never_stale (mem gen : Nat) (pcs : List RuleCache.PC) (hf : RuleCache.Fresh pcs) (σ : List Nat) :
+    let s := RuleCache.run { mem := mem, cache := none, gen := gen, pcs := pcs } σ
+    ∀ c, s.cache = some c → c = s.mem ∨ RuleCache.midWrite s :=
+  (RuleCache.inv_run (RuleCache.inv_init mem gen pcs hf) σ).cache
+
+/-- the second invalidation is what makes it true. Schedule: the writer invalidates; the reader reads the generation and the
+old rule; the writer updates the state; the reader caches what it read (the generation has not moved). At that point the old
+version is cached and the new one stored — the state of affairs that used to be final when `Add` invalidated only before its
+update. The writer's second invalidation, its last step, empties the cache again. -/
+theorem rule_cache_needs_second_invalidation :
+    (let s := RuleCache.run { mem := 1, cache := none, gen := 0, pcs := [.w0 2, .r0] } [0, 1, 1, 0, 1]
+     s.cache = some 1 ∧ s.mem = 2) ∧
+    (let s := RuleCache.run { mem := 1, cache := none, gen := 0, pcs := [.w0 2, .r0] } [0, 1, 1, 0, 1, 0]
+     s.cache = none ∧ s.mem = 2 ∧ s.pcs = [.done none, .done (some 1)]) := by decide
+
+/-- tie (regenerated table): in both implementations `FindCachedRules` reads the generation BEFORE it reads the rules from
+the state and caches afterwards, and `Add` and `rem` invalidate twice (the extractor lists a deferred call where it is
+written; that the second invalidation runs after the update is the `defer`, and is what the forced schedules of the check
+observe). -/
+theorem rule_cache_protocol_in_table :
+    (["indexed", "linear"].all (fun impl =>
+      (Gen.C12.table.find impl "FindCachedRules").map (·.body) ==
+        some [.call "cacheGeneration", .call "doFindRules", .call "cachedRule", .call "cacheRule"])) = true ∧
+    ((Gen.C12.table.find "indexed" "Add").map (fun m => (m.body.filter (· == .call "uncacheRule")).length)) = some 2 ∧
+    ((Gen.C12.table.find "linear" "Add").map (fun m => (m.body.filter (· == .call "uncacheRule")).length)) = some 2 ∧
+    ((Gen.C12.table.find "indexed" "rem").map (fun m => (m.body.filter (· == .call "uncacheRule")).length)) = some 2 := by
+  decide +kernel
 
 /-! ## Negative theorems: one witness schedule per class of exception (programs built from the regenerated table) -/
 
